@@ -652,4 +652,92 @@ theorem linksOfHops_length (lim : Bool) (dst : Nat) : ∀ hs : List Hop,
     rw [linksOfHops_cons, List.length_append, ih]
     cases lim <;> simp [hopSegment] <;> omega
 
+/-! ### which links are declared: the neighbour of a node along a dimension -/
+
+/-- `neighbor_rank_id` computed by `create_torus_links(id, rank, ..)` at iteration `k` of its loop (started with
+`dim_product = P` on the dimensions `ds`); `none` when there is no such dimension -/
+def nbrAt (rank : Nat) : Nat → List Nat → Nat → Option Nat
+  | _, [], _ => none
+  | P, d :: _, 0 => some (if (rank / P) % d = d - 1 then rank - (d - 1) * P else rank + P)
+  | P, d :: ds, k + 1 => nbrAt rank (P * d) ds k
+
+/-- the node at the other end of the link `<zone>_link_from_<rank>_to_..` that `rank` declares for dimension `j` -/
+def Torus.neighbour (t : Torus) (rank j : Nat) : Option Nat := nbrAt rank 1 t.dims j
+
+/-- the `k`-th entry stored by `create_torus_links` is the pair of halves of the link towards the `k`-th neighbour -/
+theorem torusLinks_at (id rank pos : Nat) : ∀ (ds : List Nat) (j P k : Nat),
+    Entries.at (torusLinks id rank pos j P ds) (pos + j + k)
+      = (nbrAt rank P ds k).map (fun nb => (TLink.cable id nb true, TLink.cable id nb false)) := by
+  intro ds
+  induction ds with
+  | nil => intro j P k; simp [torusLinks, Entries.at, nbrAt]
+  | cons d ds ih =>
+    intro j P k
+    cases k with
+    | zero => simp [torusLinks, Entries.at_cons, nbrAt]
+    | succ k =>
+      simp only [torusLinks, Entries.at_cons, nbrAt]
+      rw [if_neg (by omega), ← ih (j + 1) (P * d) k]
+      congr 1; omega
+
+theorem nbr_of_at (t : Torus) (i j a b : Nat) (l : TLink)
+    (h : Entries.at (torusLinks i i ((finalState t).nodePosLbLim i) 0 1 t.dims) ((finalState t).nodePosLbLim i + j)
+      = some (TLink.cable a b true, l)) : t.neighbour i j = some b := by
+  have := torusLinks_at i i ((finalState t).nodePosLbLim i) t.dims 0 1 j
+  rw [Nat.add_zero, h] at this
+  unfold Torus.neighbour
+  cases hn : nbrAt i 1 t.dims j with
+  | none => rw [hn] at this; cases this
+  | some nb =>
+    rw [hn] at this
+    simp only [Option.map_some, Option.some.injEq, Prod.mk.injEq, TLink.cable.injEq] at this
+    rw [this.1.2.1]
+
+/-- **every hop uses a declared link**: going right, `next` is the neighbour of `cur` along the hop's dimension; going
+left, `cur` is the neighbour of `next` -/
+theorem hop_declared (t : Torus) (dst : Nat) (tri : List (Nat × Nat × Nat)) (hpos : ∀ x ∈ tri, 0 < x.1)
+    (hdims : triDims tri = t.dims) (h : Hop) (hscan : scan h.cur dst 0 1 tri = some h) :
+    h.dim < t.dims.length ∧
+    (if h.up then t.neighbour h.cur h.dim = some h.next else t.neighbour h.next h.dim = some h.cur) := by
+  have hj : h.dim < t.dims.length := by
+    have := (scan_facts _ _ _ _ _ _ hscan).2.2
+    rw [← hdims, triDims, List.length_map]; omega
+  refine ⟨hj, ?_⟩
+  cases hup : h.up
+  · have h1 := scan_down_link h.cur dst ((finalState t).nodePosLbLim h.next) tri 0 1 h hpos (by omega) hscan hup
+    rw [hdims] at h1
+    simpa using nbr_of_at t _ _ _ _ _ h1
+  · have h1 := scan_up_link h.cur dst ((finalState t).nodePosLbLim h.cur) tri 0 1 h hpos hscan hup
+    rw [hdims] at h1
+    simpa using nbr_of_at t _ _ _ _ _ h1
+
+/-- **the `private_links_` table after `do_seal`**, position by position -/
+theorem sealed_table (t : Torus) (i : Nat) (hi : i < t.tot) :
+    (t.lb = true → Entries.at (sealedEntries t) ((finalState t).nodePos i) = some (TLink.loopback i, TLink.loopback i)) ∧
+    (t.lim = true → Entries.at (sealedEntries t) ((finalState t).nodePosLb i) = some (TLink.limiter i, TLink.limiter i)) ∧
+    (∀ j, j < t.dims.length → Entries.at (sealedEntries t) ((finalState t).nodePosLbLim i + j)
+        = (t.neighbour i j).map (fun nb => (TLink.cable i nb true, TLink.cable i nb false))) := by
+  refine ⟨lookup_loopback t i hi, lookup_limiter t i hi, ?_⟩
+  intro j hj
+  have h := torusLinks_at i i ((finalState t).nodePosLbLim i) t.dims 0 1 j
+  rw [Nat.add_zero] at h
+  unfold Torus.neighbour
+  cases hn : nbrAt i 1 t.dims j with
+  | none =>
+    -- impossible: j < dims.length; but the statement holds anyway only if the lookup fails, so show a neighbour exists
+    exfalso
+    have : ∀ (ds : List Nat) (P k : Nat), k < ds.length → nbrAt i P ds k ≠ none := by
+      intro ds
+      induction ds with
+      | nil => intro P k hk; simp at hk
+      | cons d ds ih =>
+        intro P k hk
+        cases k with
+        | zero => simp [nbrAt]
+        | succ k => simp only [nbrAt]; exact ih _ _ (by simpa using hk)
+    exact this _ _ _ hj hn
+  | some nb =>
+    rw [hn] at h
+    exact lookup_cable t i j _ hi hj h
+
 end SgVerif.C26
